@@ -138,6 +138,7 @@ R.contract(
                 "cached_fitness_kept": "fitness_stores_monotone()", "phenotype_cache_stable": "phenotypes_sticky()",
                 "processed_slices_are_in_the_output": "forall(0, _k, lambda i: ranges[i][1] <= len(OUT) and 0 <= ranges[i][0])",
                 "elitism_slots_so_far_kept_the_best": "forall(0, _k, lambda i: implies(isinstance(self.steps[i], ElitismStep) and ranges[i][1] - ranges[i][0] > 0, forall(0, len(npopulation), lambda e: problem in OUT[ranges[i][0]].fitness_store and problem in npopulation[e].fitness_store and OUT[ranges[i][0]].fitness_store[problem].maximizing_aggregate >= npopulation[e].fitness_store[problem].maximizing_aggregate)))",
+                "sub_steps_see_the_complete_population": "len(npopulation) == old(avail(population)) and forall(0, len(npopulation), lambda e: same(npopulation[e], old(item(population, e))))",
             },
             modifies=["OUT[]"] + STEP_MOD,
         )
@@ -145,7 +146,7 @@ R.contract(
     proves={
         # C16, second sentence, at the level of one generation step: if a slice of positive size is given to an elitism step, the
         # new population contains an individual at least as good as every member of the old one
-        "a_reserved_elitism_slot_keeps_the_best": "forall(0, len(self.steps), lambda i: implies(isinstance(self.steps[i], ElitismStep) and ranges[i][1] - ranges[i][0] > 0, forall(0, len(npopulation), lambda e: problem in result[ranges[i][0]].fitness_store and problem in npopulation[e].fitness_store and result[ranges[i][0]].fitness_store[problem].maximizing_aggregate >= npopulation[e].fitness_store[problem].maximizing_aggregate)))",
+        "a_reserved_elitism_slot_keeps_the_best": "forall(0, len(self.steps), lambda i: implies(isinstance(self.steps[i], ElitismStep) and ranges[i][1] - ranges[i][0] > 0, forall(0, old(avail(population)), lambda e: problem in result[ranges[i][0]].fitness_store and problem in old(item(population, e)).fitness_store and result[ranges[i][0]].fitness_store[problem].maximizing_aggregate >= old(item(population, e)).fitness_store[problem].maximizing_aggregate)))",
     },
     modifies=list(STEP_MOD),
     props=["C15", "C16", "C09"],
